@@ -333,6 +333,52 @@ def op_itervars(kind, js, pfx, query, names, norm):
     return enc_varmap(d)
 
 
-for _n, _f in (('itervars', op_itervars), ('pyastinfos', op_pyastinfos), ('pynum', op_pynum), ('numhandler', op_numhandler), ('tablevars', op_tablevars), ('joinresolve', op_joinresolve), ('exceptcols', op_exceptcols), ('dictvars', op_dictvars), ('attrvars', op_attrvars), ('directvars', op_directvars), ('clidialect', op_clidialect), ('starcount', op_starcount), ('starvars', op_starvars), ('starmarker', op_starmarker), ('trsel', op_trsel), ('updpairs', op_updpairs),
+def op_tablepath(cwd, home, main_dir, table_id, files, index):
+    """the REAL find_table_path over a real directory tree: the given absolute paths are created under a scratch root (every path of the protocol is
+    re-rooted there and mapped back), HOME and the working directory are set, ~/.rbql_table_names is written"""
+    import os, tempfile, shutil
+    from rbql import rbql_csv
+    root = tempfile.mkdtemp(prefix='rbqlverif_tp_')
+    saved_cwd, saved_home = os.getcwd(), os.environ.get('HOME')
+    rr = lambda p: root + p if p.startswith('/') else p
+    try:
+        cw, hm = dec_str(cwd), dec_str(home)
+        for d in (cw, hm):
+            os.makedirs(rr(d), exist_ok=True)
+        listed = dec_list(files)
+        for f in sorted(listed, key=len):
+            is_dir = any(g.startswith(f + '/') for g in listed) or f in (cw, hm)
+            if is_dir:
+                os.makedirs(rr(f), exist_ok=True)
+            elif not f.endswith('/.rbql_table_names'):
+                os.makedirs(os.path.dirname(rr(f)), exist_ok=True)
+                open(rr(f), 'w').close()
+        if index != 'N':
+            with open(os.path.join(rr(hm), '.rbql_table_names'), 'w', newline='') as fh:
+                for ln in dec_list(index[1:]):
+                    # the registered paths are absolute paths of the protocol: re-root them like everything else
+                    parts = ln.split('\t')
+                    if len(parts) > 1:
+                        parts[1] = rr(parts[1])
+                    parts[0] = rr(parts[0])
+                    fh.write('\t'.join(parts) + '\n')
+        os.environ['HOME'] = rr(hm)
+        os.chdir(rr(cw))
+        md = None if main_dir == 'N' else rr(dec_str(main_dir[1:]))
+        tid = dec_str(table_id)
+        r = rbql_csv.find_table_path(md, rr(tid) if tid.startswith('/') else tid)
+        if r is None:
+            return 'N'
+        return 'S' + enc_str(r[len(root):] if r.startswith(root) else r)
+    finally:
+        os.chdir(saved_cwd)
+        if saved_home is None:
+            os.environ.pop('HOME', None)
+        else:
+            os.environ['HOME'] = saved_home
+        shutil.rmtree(root, ignore_errors=True)
+
+
+for _n, _f in (('tablepath', op_tablepath), ('itervars', op_itervars), ('pyastinfos', op_pyastinfos), ('pynum', op_pynum), ('numhandler', op_numhandler), ('tablevars', op_tablevars), ('joinresolve', op_joinresolve), ('exceptcols', op_exceptcols), ('dictvars', op_dictvars), ('attrvars', op_attrvars), ('directvars', op_directvars), ('clidialect', op_clidialect), ('starcount', op_starcount), ('starvars', op_starvars), ('starmarker', op_starmarker), ('trsel', op_trsel), ('updpairs', op_updpairs),
                ('basicvars', op_basicvars), ('arrayvars', op_arrayvars), ('selinfos', op_selinfos)):
     impl_py.register(_n, _f)
